@@ -213,6 +213,32 @@ pub fn judge_altered(rep: &mut Report, c: &Corpus, altered: &[u8], fault: Fault,
             Err(p) => rep.violation("panic", format!("verify:{}", p.signature()), p.msg.clone(), J::obj().set("altered", J::hex(altered))),
         }
     }
+    // (4) the verification entry points agree with the readers and with each other: what every reader
+    // refused is not "verified" (with or without a stored MD5), and the path-based `verify` gives
+    // the verdict of `verify_reader` on the same bytes (sampled: it needs a real file)
+    let sampled = fnv(altered) % 24 == 0 || what.starts_with("must-reject");
+    if all_err && (!c.md5_present || sampled) {
+        let by_reader = mon::guard(|| verify_bytes(altered));
+        if let Ok(Ok(v)) = &by_reader {
+            // adjudicate like (2): the altered bytes may be another valid stream as far as the readers got
+            if decode_file(altered, &Rules::LENIENT).is_err() {
+                rep.violation("silent-accept", "verify-accepts-what-readers-reject", format!("{what}: every reader reported an error but verify_reader returned Ok({v:?})"), J::obj().set("corpus", c.label.as_str()).set("fault", what).set("altered", J::hex(altered)));
+            }
+        }
+        if sampled {
+            let path = crate::api::scratch_dir().join(format!("c05-{}-{:016x}.flac", std::process::id(), fnv(altered)));
+            if std::fs::write(&path, altered).is_ok() {
+                let by_path = mon::guard(|| flac_codec::decode::verify(&path).map_err(|e| crate::api::show(&e)));
+                let _ = std::fs::remove_file(&path);
+                rep.count("verify_path", match &by_path { Ok(Ok(_)) => "ok", Ok(Err(_)) => "error", Err(_) => "panic" });
+                match (&by_reader, &by_path) {
+                    (_, Err(p)) => rep.violation("panic", format!("verify-path:{}", p.signature()), p.msg.clone(), J::obj().set("altered", J::hex(altered))),
+                    (Ok(Err(_)), Ok(Ok(v))) => rep.violation("silent-accept", "verify-path-accepts-what-verify-reader-rejects", format!("{what}: verify(path) returned Ok({v:?}) for bytes on which verify_reader reports an error"), J::obj().set("corpus", c.label.as_str()).set("fault", what).set("altered", J::hex(altered))),
+                    _ => {}
+                }
+            }
+        }
+    }
     all_err
 }
 
@@ -364,7 +390,8 @@ pub fn must_reject_cases(rep: &mut Report, rng: &mut Rng, count: usize) {
             Malform::Crc8Wrong,
             Malform::Crc16Wrong,
             Malform::SubPadBit(s),
-            Malform::SubReservedType(s, *rng.pick(&[2u8, 5, 7, 13, 20, 31])),
+            // every reserved subframe type code: 00001x, 0001xx, 001101-001111, 01xxxx
+            Malform::SubReservedType(s, *rng.pick(&[2u8, 3, 4, 5, 6, 7, 13, 14, 15, 16, 17, 18, 19, 20, 21, 22, 23, 24, 25, 26, 27, 28, 29, 30, 31])),
             Malform::WastedGeBps(s),
             Malform::Precision15(s),
             Malform::NegativeShift(s),
@@ -412,6 +439,12 @@ pub fn must_reject_cases(rep: &mut Report, rng: &mut Rng, count: usize) {
                             sp.precision = 4;
                             sp.coefs = vec![1; 32];
                         }
+                        // a reserved code that differs from a legal one in a single bit sits on a
+                        // body of the legal kind it resembles, so that a decoder which ignores that
+                        // bit would decode the frame without noticing anything
+                        Malform::SubReservedType(_, c) if (24..=28).contains(&c) || (16..=20).contains(&c) => sp.kind = flacref::dec::SubKind::Fixed(c & 7),
+                        Malform::SubReservedType(_, 2) | Malform::SubReservedType(_, 4) | Malform::SubReservedType(_, 16) => sp.kind = flacref::dec::SubKind::Constant,
+                        Malform::SubReservedType(_, 3) | Malform::SubReservedType(_, 5) | Malform::SubReservedType(_, 17) => sp.kind = flacref::dec::SubKind::Verbatim,
                         _ => {}
                     }
                 }
